@@ -851,6 +851,28 @@ class Interp:
 
     def test_variant(self, val, path, subpats, fieldpats, st, fidx):
         vname = self.variant_name(path)
+        if isinstance(val, Obj) and val.kind == "checkpoint" and vname in ("Some", "None"):
+            # Option<LexerCheckpoint> field: decided by the checkpoint typestate, the payload is a reference
+            # into the saved checkpoint value
+            alts = []
+            if st.ckpt == "unk":
+                s_some = st.clone()
+                s_some.ckpt, s_some.ckpt_val = "some", Term("ckpt@entry")
+                st.ckpt, st.ckpt_val = "none", None
+                alts = [(True, s_some), (False, st)]
+            else:
+                alts = [(st.ckpt == "some", st)]
+            res = []
+            for is_some, s in alts:
+                if vname == "None":
+                    res.append((not is_some, s))
+                elif not is_some:
+                    res.append((False, s))
+                elif subpats:
+                    res.extend(self.bind(subpats[0], LRef(("ckptval",)), s, fidx))
+                else:
+                    res.append((True, s))
+            return res
         if isinstance(val, LRef):
             inner = self.deref(val, st)
             res = self.test_variant_ref(val, inner, path, subpats, fieldpats, st, fidx)
@@ -1184,6 +1206,11 @@ class Interp:
             return st.frames[loc[1]].get(loc[2], Term("uninit"))
         if loc[0] == "lasttok":
             return Term("lasttok." + ".".join(str(x) for x in loc[2:]), (Const("int", st.tokens_epoch),))
+        if loc[0] == "ckptval":
+            v = st.ckpt_val if st.ckpt_val is not None else Term("ckpt@entry")
+            for f in loc[1:]:
+                v = self.project(v, f)
+            return v
         return Term("deref", (ref,))
 
     def project(self, v, f):
@@ -1227,6 +1254,16 @@ class Interp:
         if loc[0] == "lasttok":
             self.emit(st, "lasttok_write", node, accessor=loc[1], field=loc[2] if len(loc) > 2 else None, value=val,
                       epoch=st.tokens_epoch)
+            return
+        if loc[0] == "ckptval":
+            # a write into the saved checkpoint (e.g. bumping the stack length it will truncate to)
+            if isinstance(st.ckpt_val, Enum):
+                old = st.ckpt_val
+                st.ckpt_val = self.update_path(old, loc[1:], val)
+                self.emit(st, "ckpt", node, op="update", prior=st.ckpt, path=loc[1:], value=val)
+            else:
+                st.ckpt, st.ckpt_val = "unk" if st.ckpt != "none" else st.ckpt, None
+                self.emit(st, "ckpt", node, op="update?", prior=st.ckpt, path=loc[1:], value=val)
             return
         self.note_unanalysed("store through %r" % (loc,), node)
 
